@@ -23,6 +23,7 @@ type LoopContract struct {
 	Invariants []Clause
 	Decreases  *Clause
 	Uses       []Clause
+	Returns    []Clause // `loop N returns <cond>`: must hold at every return statement lexically inside the loop
 }
 
 type FuncContract struct {
@@ -88,7 +89,7 @@ func newContractSet() *ContractSet {
 }
 
 var reFuncHdr = regexp.MustCompile(`^func\s+(\(\s*\*?\s*[A-Za-z_][A-Za-z0-9_]*(\[[^\]]*\])?\s*\)\s*)?([A-Za-z_][A-Za-z0-9_]*)\s*$`)
-var reSpecFunc = regexp.MustCompile(`^spec\s+func\s+([A-Za-z_][A-Za-z0-9_]*)\s*\(([^)]*)\)\s*([A-Za-z_\[\]][A-Za-z0-9_\[\]\.]*)\s*(=\s*(.*))?$`)
+var reSpecFunc = regexp.MustCompile(`^spec\s+func\s+([A-Za-z_][A-Za-z0-9_]*)\s*\(([^)]*)\)\s*([A-Za-z_\[\]\*][A-Za-z0-9_\[\]\.\*]*)\s*(=\s*(.*))?$`)
 var reLemma = regexp.MustCompile(`^lemma\s+([A-Za-z_][A-Za-z0-9_]*)\s*\(([^)]*)\)\s*$`)
 
 func normKey(recv, name string) string {
@@ -375,6 +376,8 @@ func (cs *ContractSet) loadFile(path string) error {
 				lc.Decreases = &cl
 			case "use":
 				lc.Uses = append(lc.Uses, cl)
+			case "returns":
+				lc.Returns = append(lc.Returns, cl)
 			default:
 				return fmt.Errorf("%s:%d: bad loop directive %q", path, l.no, f[1])
 			}
